@@ -3,6 +3,7 @@ import EpModel.Lemmas.CodecNetIpv6Frag
 import EpModel.Lemmas.CodecNetIpv4
 import EpModel.Lemmas.CodecNetAuth
 import EpModel.Lemmas.CodecNetRawExt
+import EpModel.Model.Codec.NetIpv4Exts
 /-
   C08 (network-layer half) — every header value survives encode → decode unchanged.
 
@@ -477,5 +478,99 @@ example : Ipv6RawExtHeader.WF Ipv6RawExtHeader.sampleMax := by
   refine ⟨by decide, ?_, ?_, ?_⟩ <;> rw [hl] <;> decide
 
 end RawExt
+
+/-! ## Ipv4Extensions (composite: optional authentication header behind an IPv4 header) -/
+namespace Ipv4Exts
+open EpModel.Lemmas.CodecNet.Auth
+
+/-- for a consistent value `write` succeeds with exactly `header_len()` bytes, and
+    `next_header` reports what the decoder will report. -/
+theorem encoders_agree (e : Ipv4Extensions) (start : Nat) (wf : e.WF start) :
+    ∃ bytes, e.writeOut start = .ok bytes ∧ bytes.length = e.headerLen := by
+  obtain ⟨auth⟩ := e
+  cases auth with
+  | none => exact ⟨[], rfl, rfl⟩
+  | some h =>
+    obtain ⟨hs, hwf⟩ := wf
+    refine ⟨h.toBytes, by simp [Ipv4Extensions.writeOut, hs], ?_⟩
+    show h.toBytes.length = h.headerLen
+    rw [toBytes_length h hwf, headerLen_eq h hwf]
+
+/-- decoding the written bytes (followed by anything) with the same start protocol number returns
+    the value, the next protocol number `next_header` announces and the untouched remainder. -/
+theorem decode_encode (e : Ipv4Extensions) (start : Nat) (tail : Bytes) (wf : e.WF start) :
+    ∃ bytes next, e.writeOut start = .ok bytes ∧ e.nextHeader start = .ok next ∧
+      Ipv4Extensions.fromSlice start (bytes ++ tail) = .ok (e, next, tail) := by
+  obtain ⟨auth⟩ := e
+  cases auth with
+  | none =>
+    have hs : ipNumberAuth ≠ start := wf
+    refine ⟨[], start, rfl, rfl, ?_⟩
+    simp [Ipv4Extensions.fromSlice, Ipv4ExtensionsSlice.fromSlice, hs,
+      Ipv4ExtensionsSlice.toHeader]
+  | some h =>
+    obtain ⟨hs, hwf⟩ := wf
+    refine ⟨h.toBytes, h.nextHeader, by simp [Ipv4Extensions.writeOut, hs],
+      by simp [Ipv4Extensions.nextHeader, hs], ?_⟩
+    have hnh : IpAuthHeaderSlice.nextHeader { slice := h.toBytes } = h.nextHeader := by
+      have := toHeader_toBytes h hwf
+      rw [toHeader_eq _ (by rw [toBytes_length h hwf]; omega)
+        (by rw [toBytes_length h hwf]; have := hwf.2.2.2.1; omega)
+        (by rw [toBytes_length h hwf]; have := hwf.2.2.2.2; omega)] at this
+      simp only [Option.some.injEq] at this
+      exact congrArg IpAuthHeader.nextHeader this
+    simp only [Ipv4Extensions.fromSlice, Ipv4ExtensionsSlice.fromSlice, hs, if_true,
+      slice_of_toBytes h tail hwf, Ipv4ExtensionsSlice.toHeader, toHeader_toBytes h hwf, hnh]
+    rw [List.drop_left' rfl]
+
+/-- everything the decoder accepts is a consistent value, and writing it back with the same start
+    number reproduces the consumed bytes up to the AH reserved bytes and decodes to the same
+    result again. -/
+theorem encode_decode (start : Nat) (b : Bytes) (e : Ipv4Extensions) (next : Nat) (rest : Bytes)
+    (hd : Ipv4Extensions.fromSlice start b = .ok (e, next, rest)) :
+    e.WF start ∧ e.nextHeader start = .ok next ∧
+      e.writeOut start = .ok (maskReserved .ipAuth (b.take e.headerLen)) ∧
+      Ipv4Extensions.fromSlice start (maskReserved .ipAuth (b.take e.headerLen) ++ rest)
+        = .ok (e, next, rest) := by
+  unfold Ipv4Extensions.fromSlice Ipv4ExtensionsSlice.fromSlice at hd
+  by_cases hs : ipNumberAuth = start
+  · simp only [hs, if_true] at hd
+    cases hsl : IpAuthHeaderSlice.fromSlice b with
+    | error err => simp [hsl] at hd
+    | ok s =>
+      obtain ⟨h1, h2, h3⟩ := sliceFromSlice_ok b s hsl
+      simp only [hsl, Ipv4ExtensionsSlice.toHeader, toHeader_eq s h1 h2 h3, Except.ok.injEq,
+        Prod.mk.injEq] at hd
+      obtain ⟨rfl, rfl, rfl⟩ := hd
+      -- the struct decoder on the same bytes
+      have hstruct : IpAuthHeader.fromSlice b = .ok
+          ({ nextHeader := bAt s.slice 0, spi := be32 s.slice 4, sequenceNumber := be32 s.slice 8,
+             rawIcv := s.slice.drop 12 }, b.drop s.slice.length) := by
+        simp [IpAuthHeader.fromSlice, hsl, toHeader_eq s h1 h2 h3]
+      have hwf := Auth.decoded_wf _ _ _ hstruct
+      have hed := Auth.encode_decode _ _ _ hstruct
+      have hde := decode_encode { auth := some _ } start (b.drop s.slice.length) ⟨hs, hwf⟩
+      obtain ⟨bytes, nx, hw, hn, hfs⟩ := hde
+      simp only [Ipv4Extensions.writeOut, hs, if_true, Except.ok.injEq] at hw
+      simp only [Ipv4Extensions.nextHeader, hs, if_true, Except.ok.injEq] at hn
+      subst hw; subst hn
+      refine ⟨⟨hs, hwf⟩, by simp [Ipv4Extensions.nextHeader, hs]; rfl, ?_, ?_⟩
+      · simp only [Ipv4Extensions.writeOut, hs, if_true, Ipv4Extensions.headerLen]
+        rw [hed.1]
+      · simp only [Ipv4Extensions.headerLen]
+        rw [← hed.1]; exact hfs
+  · simp only [hs, if_false, Ipv4ExtensionsSlice.toHeader, Except.ok.injEq, Prod.mk.injEq] at hd
+    obtain ⟨rfl, rfl, rfl⟩ := hd
+    refine ⟨hs, rfl, rfl, ?_⟩
+    simp [Ipv4Extensions.headerLen, maskReserved, reservedTable, clearBits,
+      Ipv4Extensions.fromSlice, Ipv4ExtensionsSlice.fromSlice, hs, Ipv4ExtensionsSlice.toHeader]
+
+example : Ipv4Extensions.WF Ipv4Extensions.sampleMax 51 :=
+  ⟨rfl, by
+    have hl : IpAuthHeader.sampleMax.rawIcv.length = 1016 := List.length_replicate
+    refine ⟨by decide, by decide, by decide, ?_, ?_⟩ <;> rw [hl] <;> decide⟩
+example : Ipv4Extensions.WF { auth := none } 17 := by decide
+
+end Ipv4Exts
 
 end EpModel.Props.C08Net
